@@ -231,6 +231,12 @@ class Abbrev:
         self.code, self.tag, self.children, self.specs = code, tag, children, specs
         self.offset, self.attr_offsets = None, []
 
+    @property
+    def libdw_attr_offsets(self):
+        """What libdw's dwarf_getabbrevattr (and dwgrep's `abbrev attribute offset`) report: the abbreviation's
+        offset plus the distance from its FIRST attribute spec, i.e. short by the size of (code, tag, children)."""
+        return [self.offset + o - self.attr_offsets[0] for o in self.attr_offsets]
+
 
 class AbbrevTable:
     """One abbreviation table (a contiguous, 0-terminated run in .debug_abbrev).  Give the same object to
@@ -292,6 +298,31 @@ class Unit:
                 DW.get('DW_TAG_skeleton_unit'): DW['DW_UT_skeleton']}.get(self.root.tag, DW['DW_UT_compile'])
 
 
+def secptr_form(version, offset_size=4):
+    """The form a section offset (DW_AT_stmt_list, location/range list pointers) takes in VERSION:
+    DW_FORM_sec_offset from DWARF 4 on, DW_FORM_data4 / DW_FORM_data8 before."""
+    return F['DW_FORM_sec_offset'] if version >= 4 else F['DW_FORM_data4' if offset_size == 4 else 'DW_FORM_data8']
+
+
+def cu_root(name=b'a.c', comp_dir=b'/src', version=4, offset_size=4, low_pc=0, line_table=None, attrs=(), children=(),
+            tag='DW_TAG_compile_unit'):
+    """A root DIE the way libdw likes it: DW_AT_name, DW_AT_comp_dir, DW_AT_low_pc (the base address for location
+    and range lists; None leaves it out) and DW_AT_stmt_list when a LineTable is given, then ATTRS."""
+    at = [Attr('DW_AT_name', 'DW_FORM_string', name), Attr('DW_AT_comp_dir', 'DW_FORM_string', comp_dir)]
+    if low_pc is not None:
+        at.append(Attr('DW_AT_low_pc', 'DW_FORM_addr', low_pc))
+    if line_table is not None:
+        at.append(Attr('DW_AT_stmt_list', secptr_form(version, offset_size), line_table))
+    return Die(tag, at + list(attrs), children)
+
+
+# DWARF 5 list entry kind -> (DW_LLE_/DW_RLE_ suffix, operands (A address, U ULEB), carries an expression)
+_LIST_ENTRIES = {'pair': ('offset_pair', 'UU', True), 'base': ('base_address', 'A', False),
+                 'start_end': ('start_end', 'AA', True), 'start_length': ('start_length', 'AU', True),
+                 'default': ('default_location', '', True), 'base_addressx': ('base_addressx', 'U', False),
+                 'startx_endx': ('startx_endx', 'UU', True), 'startx_length': ('startx_length', 'UU', True)}
+
+
 class LocList:
     """entries: ('pair', begin, end, ops) | ('base', addr) and for DWARF 5 units also ('start_end', b, e, ops),
     ('start_length', b, len, ops), ('default', ops), ('base_addressx', idx), ('startx_endx', i, j, ops),
@@ -349,25 +380,25 @@ class LineTable:
         self.offset = self.size = self.version = self.unit = None
 
     def path(self, index, comp_dir=b''):
-        """Full path of file INDEX as libdw's dwarf_filesrc reports it: name if absolute, else
-        dir/name, where a relative dir is itself prefixed with comp_dir.  For tables of version 2-4,
-        index 0 is invalid (libdw reports "???"/the CU name depending on its version) -> None."""
+        """File INDEX as libdw's dwarf_filesrc (dwgrep's @AT_decl_file) reports it: the name if it is absolute,
+        else directory + '/' + name, the directory taken as stored (a relative directory is NOT prefixed with
+        the compilation directory).  Versions 2-4: directory 0 is COMP_DIR, index 0 gives b'???' (libdw 0.188);
+        version 5: both tables are used as stored.  Out of range -> None (libdw returns NULL without setting
+        an error)."""
         v = self.version if self.version is not None else (self.req_version or 4)
         if v < 5:
-            if index < 1 or index > len(self.files):
+            if index == 0:
+                return b'???'
+            if index < 0 or index > len(self.files):
                 return None
             name, di = self.files[index - 1][:2]
-            d = comp_dir if di == 0 else self.dirs[di - 1]
+            d = comp_dir if di == 0 else (self.dirs[di - 1] if di <= len(self.dirs) else b'')
         else:
-            if index >= len(self.files):
+            if index < 0 or index >= len(self.files):
                 return None
             name, di = self.files[index][:2]
             d = self.dirs[di] if di < len(self.dirs) else b''
-        if name.startswith(b'/'):
-            return name
-        if not d.startswith(b'/') and comp_dir and d != comp_dir:
-            d = comp_dir + b'/' + d if d else comp_dir
-        return d + b'/' + name if d else name
+        return name if name.startswith(b'/') or not d else d + b'/' + name
 
 
 class Sym:
@@ -796,59 +827,30 @@ class ElfFile:
             buf += (b'\0' * 4 if osz == 4 else b'\xff' * 4 + b'\0' * 8) + uint(5, 2) + bytes([asz, 0]) + uint(0, 4)
         obj.offset, obj.section, obj.unit = len(buf), sec, u
         obj.expr_offsets = []
-        K = DW_RLE if rng else DW_LLE
-        P = 'DW_RLE_' if rng else 'DW_LLE_'
-
-        def expr(e, i):
-            if rng:
-                if len(e) > i:
-                    raise ValueError('range list entry with an expression: %r' % (e,))
-                obj.expr_offsets.append(None)
-                return b''
-            b = self._expr(e[i], u)
-            hdr = uleb(len(b)) if new else uint(len(b), 2)
-            obj.expr_offsets.append(len(buf) + pending[0] + len(hdr))
-            return hdr + b
-
+        K, P = (DW_RLE, 'DW_RLE_') if rng else (DW_LLE, 'DW_LLE_')
         for e in obj.entries:
             k = e[0]
-            pending = [0]
             if not new:
-                if k == 'pair':
-                    head = uint(e[1], asz) + uint(e[2], asz)
-                elif k == 'base':
-                    head = b'\xff' * asz + uint(e[1], asz)
-                else:
+                if k not in ('pair', 'base'):
                     raise ValueError('%r entry not possible in %s' % (k, sec))
-                pending[0] = len(head)
-                buf += head + (expr(e, 3) if k == 'pair' else b'')
-                if k != 'pair':
-                    obj.expr_offsets.append(None)
-                continue
-            if k == 'pair':
-                head, xi = bytes([K[P + 'offset_pair']]) + uleb(e[1]) + uleb(e[2]), 3
-            elif k == 'base':
-                head, xi = bytes([K[P + 'base_address']]) + uint(e[1], asz), None
-            elif k == 'start_end':
-                head, xi = bytes([K[P + 'start_end']]) + uint(e[1], asz) + uint(e[2], asz), 3
-            elif k == 'start_length':
-                head, xi = bytes([K[P + 'start_length']]) + uint(e[1], asz) + uleb(e[2]), 3
-            elif k == 'default' and not rng:
-                head, xi = bytes([K[P + 'default_location']]), 1
-            elif k == 'base_addressx':
-                head, xi = bytes([K[P + 'base_addressx']]) + uleb(e[1]), None
-            elif k == 'startx_endx':
-                head, xi = bytes([K[P + 'startx_endx']]) + uleb(e[1]) + uleb(e[2]), 3
-            elif k == 'startx_length':
-                head, xi = bytes([K[P + 'startx_length']]) + uleb(e[1]) + uleb(e[2]), 3
+                enc, has_x = ('AA', True) if k == 'pair' else ('A', False)
+                buf += b'\xff' * asz if k == 'base' else b''
             else:
-                raise ValueError('unknown list entry %r' % (e,))
-            pending[0] = len(head)
-            if xi is None:
+                if k not in _LIST_ENTRIES or (rng and k == 'default'):
+                    raise ValueError('unknown list entry %r' % (e,))
+                code, enc, has_x = _LIST_ENTRIES[k]
+                buf.append(K[P + code])
+            for t, x in zip(enc, e[1:]):
+                buf += uint(x, asz) if t == 'A' else uleb(x)
+            if len(e) != 1 + len(enc) + (1 if has_x and not rng else 0):
+                raise ValueError('malformed list entry %r' % (e,))
+            if has_x and not rng:
+                b = self._expr(e[-1], u)
+                buf += uleb(len(b)) if new else uint(len(b), 2)
+                obj.expr_offsets.append(len(buf))
+                buf += b
+            else:
                 obj.expr_offsets.append(None)
-                buf += head
-            else:
-                buf += head + expr(e, xi)
         if obj.terminated:
             buf += bytes([0]) if new else b'\0' * (2 * asz)
         obj.size = len(buf) - obj.offset
